@@ -531,7 +531,7 @@ func TestVerif(t *testing.T) {
 			s     state
 			canon string
 		}
-		byKey := map[string][]rec{}   // key(xxh3)+"|"+key(sha256) -> states
+		byKey := map[string][]rec{}      // key(xxh3)+"|"+key(sha256) -> states
 		byCanon := map[string][]string{} // canon -> distinct keys
 		canonSeen := map[string]struct{}{}
 		for _, s := range fam.states {
